@@ -30,6 +30,11 @@ SHAPES = {
     "named-inner-nl": "n{i}=v{i}\nw{i}",
     "num-inner-nl": "4=v{i}\n\nw",
     "named-tabs": "\tt{i}\t=\tv{i}\t",
+    # blanks / line breaks around a positive-integer NAME
+    "num-blank-name": " 6 =v{i}",
+    "num-nl-name": "\n7=v{i}",
+    "num-spaced": "8 = v{i}",
+    "num-tab-name": "\t9\t=v{i}",
 }
 SHAPE_NAMES = list(SHAPES)
 WS = " \t\n\r"
@@ -189,7 +194,9 @@ def nontrivial(shapes):
     kinds = shape_class(shapes)
     ws = any(s in ("lead-blank", "trail-blank", "lead-newline", "named-blanks",
                    "two-word-key", "num-3-nl", "named-inner-nl",
-                   "num-inner-nl", "named-tabs") for s in shapes)
+                   "num-inner-nl", "named-tabs", "num-blank-name",
+                   "num-nl-name", "num-spaced", "num-tab-name")
+             for s in shapes)
     return "+" in kinds or ws
 
 
@@ -253,11 +260,12 @@ def run(run):
         run.merge(d)
     run.exhaustive = True
     run.rule = (
-        "All argument lists of length <= 3 over 18 argument shapes "
+        "All argument lists of length <= 3 over 22 argument shapes "
         "(positional plain / leading blank / trailing blank / leading newline "
         "/ inner newline; named plain / blank-padded / two-word key / "
         "non-ASCII / inner newline in the value / tab-padded; numeric names 2, "
-        "02, 0, -1, 3 with newlines, 4 with inner newlines, 5), names "
+        "02, 0, -1, 3 with newlines, 4 with inner newlines, 5, and 6-9 with "
+        "blanks / newline / tabs around the name), names "
         "and values made distinct per position, plus Hypothesis lists of "
         "length 4-6; lists whose arguments resolve to one key are outside the "
         "precondition and counted. Oracle: TemplateNode.template_parameters, "
